@@ -39,7 +39,7 @@ DISP = {"read_all": 0, "release": 1, "drain": 2, "close": 3, "close_release": 4}
 def enc_attempt(a):
     r = a["recv"]
     if r[0] == "resp":
-        re = [0, Z(r[1]), Opt(r[2], Z), B(r[3]), BODY[r[4]], B(r[1] in (301, 302, 303, 307, 308))]
+        re = [0, Z(r[1]), Opt(r[2] if isinstance(r[2], int) else None, Z), B(r[3]), BODY[r[4]], B(r[1] in (301, 302, 303, 307, 308))]
     else:
         re = [RECV[r[0]]]
     return [CONN[a["connect"]], SEND[a["send"]], re]
@@ -118,10 +118,14 @@ def impl(case):
         script.append({"connect": a["connect"], "send": a["send"], "recv": a["recv"]})
     net = Net1(script)
 
+    pause = {"interrupt": bool(case.get("sleep_interrupt"))}
+
     class FakeTime:
         @staticmethod
         def sleep(x):
-            pass
+            if pause["interrupt"]:
+                pause["interrupt"] = False
+                raise KeyboardInterrupt()
 
         @staticmethod
         def time():
@@ -229,6 +233,8 @@ def impl(case):
 
 def in_model_domain(case):
     """the model takes release_conn at its default (= preload_content); requests that pass it explicitly are judged by the oracle only"""
+    if case.get("sleep_interrupt") or any(a["recv"][0] == "resp" and isinstance(a["recv"][2], str) for a in case["script"]):
+        return False        # the pause before a retry fails (unparseable Retry-After, interrupt while sleeping): oracle only
     return all(rq.get("release") is None and rq.get("wait") is None and rq["disposal"] != "hold" for rq in case["reqs"])
 
 
@@ -371,6 +377,16 @@ def cases(rng, tier):
         for keep in (True, False):
             for body in ("ok", "short", "interrupt"):
                 firsts.append({"connect": "ok", "send": "ok", "recv": ["resp", status, 0 if status == 503 else None, keep, body]})
+    # the pause before a status retry fails - Retry-After that cannot be parsed, an interrupt while sleeping - with the response of the
+    # retried status still in the caller's or urlopen's hands
+    for ra, si in (("soon", False), (1, True)):
+        for preload in (False, True):
+            for maxsize, block in ((1, True), (2, False)):
+                first = {"method": "GET", "preload": preload, "retries": ["retry", {"total": 3, "forcelist": [500, 503], "raise_on_status": False, "allowed": "default"}],
+                         "disposal": "read_all", "redirect": False}
+                probe2 = {"method": "GET", "preload": True, "retries": ["int", 0], "disposal": "read_all", "redirect": False}
+                out.append({"maxsize": maxsize, "block": block, "sleep_interrupt": si, "reqs": [first, dict(probe2), dict(probe2)],
+                            "script": [{"connect": "ok", "send": "ok", "recv": ["resp", 503, ra, True, "ok"]}] + [ok] * 8})
     # release_conn=False with the body preloaded: "will release if you read the entire contents of the response such as when
     # preload_content=True" (urlopen's docstring) - the caller does nothing more
     for maxsize, block in ((1, True), (2, False)):
